@@ -3,18 +3,18 @@
 // ASSUME: every plain access that may alias a write of a thread body (TBAA / field analysis) is a scheduling point too; loads of data no thread body writes are not
 // ASSUME: values follow SC interleavings (store-buffering between relaxed atomics is outside the claim)
 // ASSUME: ThreadPool::getTID() is the thread-local my_box.topo.tid, set by each modelled thread to its id; barrier objects are built by their real constructor/reinit() in the sequential prologue
-// OB: ob_counting_T2 tier=thorough unwind=82 timeout=900 solver=cadical bounds="CountingBarrier: T=2 x 2 phases, 24 steps" desc="no thread leaves its k-th wait before all entered it; all return; no deadlock"
-// OB: ob_counting_T3 tier=never unwind=82 timeout=3000 solver=cadical bounds="CountingBarrier: T=3 x 2 phases, 36 steps" desc="same, three threads (fast thread can re-enter while slow ones leave)"
+// OB: ob_counting_T2 tier=thorough unwind=82 timeout=900 solver=cadical bounds="CountingBarrier: T=2 x 2 phases, 40 steps" desc="no thread leaves its k-th wait before all entered it; all return; no deadlock"
+// OB: ob_counting_T3 tier=attic unwind=82 timeout=3000 solver=cadical bounds="CountingBarrier: T=3 x 2 phases, 36 steps" desc="same, three threads (fast thread can re-enter while slow ones leave)"
 // OB: ob_counting_reinit tier=thorough unwind=82 timeout=1500 solver=cadical bounds="CountingBarrier: region of T=2 x 1 phase, reinit(3), region of T=3 x 1 phase" desc="re-initialisation to a different participant count between regions"
-// OB: ob_mcs_T2 tier=thorough unwind=82 timeout=1500 solver=cadical bounds="MCSBarrier: T=2 x 2 phases, 50 steps" desc="phase separation, no deadlock"
-// OB: ob_mcs_T3 tier=thorough unwind=82 timeout=3000 solver=cadical bounds="MCSBarrier: T=3 x 2 phases, 80 steps" desc="phase separation, no deadlock"
-// OB: ob_dissem_T2 tier=thorough unwind=82 timeout=900 solver=cadical bounds="DisseminationBarrier: T=2 x 3 phases (both parities), 20 steps" desc="phase separation, no deadlock"
-// OB: ob_dissem_T3 tier=thorough unwind=82 timeout=3000 solver=cadical bounds="DisseminationBarrier: T=3 x 2 phases, 50 steps" desc="phase separation, no deadlock"
+// OB: ob_mcs_T2 tier=thorough unwind=82 timeout=1500 solver=cadical bounds="MCSBarrier: T=2 x 2 phases, 70 steps" desc="phase separation, no deadlock"
+// OB: ob_mcs_T3 tier=attic unwind=82 timeout=3000 solver=cadical bounds="MCSBarrier: T=3 x 2 phases, 80 steps" desc="phase separation, no deadlock"
+// OB: ob_dissem_T2 tier=thorough unwind=82 timeout=900 solver=cadical bounds="DisseminationBarrier: T=2 x 3 phases (both parities), 64 steps" desc="phase separation, no deadlock"
+// OB: ob_dissem_T3 tier=attic unwind=82 timeout=3000 solver=cadical bounds="DisseminationBarrier: T=3 x 2 phases, 50 steps" desc="phase separation, no deadlock"
 // OB: ob_single_thread tier=thorough unwind=82 timeout=300 bounds="T=1, 3 phases, Counting/MCS/Dissemination" desc="degenerate participant count: wait() returns"
 #define S_COUNT2 40
 #define S_COUNT3 60
 #define S_MCS2 70
 #define S_MCS3 100
-#define S_DIS2 40
+#define S_DIS2 64
 #define S_DIS3 70
 #include "C05_common.h"
